@@ -351,7 +351,7 @@ func (m *Machine) decideVal(v Val) bool {
 	panic(fmt.Sprintf("decideVal: %T", v))
 }
 
-const concretizeLimit = 40
+const concretizeLimit = 256
 
 // concretize turns a symbolic integer into a concrete one by forking over its feasible values.
 func (m *Machine) concretize(v Val) int64 {
